@@ -82,6 +82,9 @@ static bool related(const std::string& a, const std::string& b) {
         {"DHCPv6.msg_type", "DHCPv6.is_relay_message", "DHCPv6.hop_count", "DHCPv6.transaction_id", "DHCPv6.link_address", "DHCPv6.peer_address", 0},
         {"Dot11.addr1", "Dot11Data.addr2", "Dot11Data.addr3", "Dot11Data.addr4", "Dot11Data.dst_addr", "Dot11Data.src_addr", "Dot11Data.bssid_addr", "Dot11.to_ds", "Dot11.from_ds", 0},
         {"RTP.padding_size", "RTP.padding_bit", 0},
+        {"LLC.dsap", "LLC.group", 0},
+        {"LLC.ssap", "LLC.response", 0},
+        {"LLC.type", "LLC.send_seq_number", "LLC.receive_seq_number", "LLC.poll_final", "LLC.supervisory_function", "LLC.modifier_function", 0},
         {"RTP.extension_bit", "RTP.extension_profile", "RTP.extension_length", "RTP.extension_data", 0},
         {0}};
     if (a == b) return true;
@@ -181,6 +184,7 @@ static std::string step(S& s, const Op& op) {
             bool had_match = !was.empty() && was.find("option_not_found") == std::string::npos && was.find("field_not_present") == std::string::npos;
             if (additive && had_match) want = was;
             bool derived = always_derived(key) || protocol_tag(key) || size_key(key);
+            for (auto it = s.expect.begin(); it != s.expect.end();) { if (it->first != key && related(it->first, key)) it = s.expect.erase(it); else ++it; }
             if (!derived) {
                 bool match = after[key] == want || equal_modulo_padding(want, after[key]);
                 // an earlier RAW option of the same type (possibly undecodable) is the first match: the getter legitimately does not move
